@@ -34,6 +34,7 @@ type op struct {
 	P    string `json:"p"`    // payload marker
 	St   int    `json:"st"`   // scheduler status
 	Days int    `json:"days"` // removeOld retention / age
+	Big  int    `json:"big"`  // extra bytes in the status (a long log path): status lines across buffer sizes
 }
 
 type hcase struct {
@@ -53,9 +54,13 @@ type answer struct {
 	Files  []string            `json:"files"`         // data dir listing (relative), sorted
 }
 
-func mkStatus(name, req, p string, st int) *model.Status {
-	return &model.Status{RequestID: req, Name: name, Status: scheduler.Status(st), StatusText: scheduler.Status(st).String(),
+func mkStatus(name, req, p string, st int, big ...int) *model.Status {
+	s := &model.Status{RequestID: req, Name: name, Status: scheduler.Status(st), StatusText: scheduler.Status(st).String(),
 		PID: model.PID(1234), Params: p, StartedAt: "-", Nodes: []*model.Node{}}
+	if len(big) > 0 && big[0] > 0 {
+		s.Log = strings.Repeat("x", big[0])
+	}
+	return s
 }
 
 func errClass(err error) string {
@@ -103,15 +108,17 @@ func runCase(c hcase) (res []answer, panicked string) {
 			err = w.Open(paths[o.D], time.UnixMilli(o.T).UTC(), o.Req)
 		case "write":
 			if w := writers[o.K]; w != nil {
-				err = w.Write(mkStatus(c.Dags[writerDag[o.K]], o.Req, o.P, o.St))
+				err = w.Write(mkStatus(c.Dags[writerDag[o.K]], o.Req, o.P, o.St, o.Big))
 			}
 		case "close":
 			if w := writers[o.K]; w != nil {
 				err = w.Close()
 				delete(writers, o.K)
 			}
+		case "abandon": // the recording process is gone without closing (killed): no compaction
+			delete(writers, o.K)
 		case "update":
-			err = admin.Update(paths[o.D], o.Req, mkStatus(c.Dags[o.D], o.Req, o.P, o.St))
+			err = admin.Update(paths[o.D], o.Req, mkStatus(c.Dags[o.D], o.Req, o.P, o.St, o.Big))
 		case "rename":
 			err = admin.Rename(paths[o.D], paths[o.D2])
 		case "removeOld":
@@ -203,15 +210,17 @@ func execMode(root, opsFile string) {
 			_ = w.Open(paths[o.D], time.UnixMilli(o.T).UTC(), o.Req)
 		case "write":
 			if w := writers[o.K]; w != nil {
-				_ = w.Write(mkStatus(c.Dags[writerDag[o.K]], o.Req, o.P, o.St))
+				_ = w.Write(mkStatus(c.Dags[writerDag[o.K]], o.Req, o.P, o.St, o.Big))
 			}
 		case "close":
 			if w := writers[o.K]; w != nil {
 				_ = w.Close()
 				delete(writers, o.K)
 			}
+		case "abandon":
+			delete(writers, o.K)
 		case "update":
-			_ = admin.Update(paths[o.D], o.Req, mkStatus(c.Dags[o.D], o.Req, o.P, o.St))
+			_ = admin.Update(paths[o.D], o.Req, mkStatus(c.Dags[o.D], o.Req, o.P, o.St, o.Big))
 		case "rename":
 			_ = admin.Rename(paths[o.D], paths[o.D2])
 		case "removeOld":
